@@ -1045,7 +1045,7 @@ func runC18(cx *ctx) {
 			return neutralLine(rr, 0, "")
 		}
 	}
-	enumerate(6, cx.n(3, 5), func(seq []int) {
+	enumerate(6, cx.n(3, 6), func(seq []int) {
 		rr := r.Fork()
 		do(func() *h.Case {
 			var ls []c18Line
@@ -1056,7 +1056,7 @@ func runC18(cx *ctx) {
 			return cli.rcpCase("cli-rcp/every-position", file, ls, note)
 		})
 	})
-	enumerate(4, cx.n(3, 5), func(seq []int) {
+	enumerate(4, cx.n(3, 6), func(seq []int) {
 		rr := r.Fork()
 		do(func() *h.Case {
 			var ls []c18Line
